@@ -135,6 +135,7 @@ func init() {
 			{ID: "R07.4", Title: "string positions: a rune count is never equated with, added to or subtracted from a byte count", Floor: 4, Run: ruleR074},
 			{ID: "R07.5", Title: "a rune that is written into a result is decoded from a string known to be non empty (must-analysis on the CFG)", Floor: 1, Run: ruleR075},
 			{ID: "R07.6", Title: "no address of an element of a slice is kept while the same function appends to that slice", Floor: 0, Run: ruleR076},
+			{ID: "R07.7", Title: "one number syntax: text to number conversions of the value package agree with the number parser of the language (kind and base)", Floor: 2, Run: ruleR077},
 			{ID: "R13.1", Title: "key-domain agreement of the map storages (see C13)", Floor: 9, Run: ruleR131},
 			{ID: "R09.1", Title: "list backing slices are never written in place (see C09)", Floor: 36, Run: ruleR091},
 		},
@@ -149,6 +150,7 @@ func init() {
 			{ID: "R08.2", Title: "short circuit consumers return inside the loop over the producer", Floor: 5, Run: ruleR082},
 			{ID: "R08.3", Title: "stop is propagated: no producer calls the consumer again after it answered false", Floor: 47, Run: ruleR083},
 			{ID: "R08.4", Title: "no list is rendered into a message (List.String iterates the list a second time)", Floor: 1, Run: ruleR084},
+			{ID: "R08.5", Title: "the error of a read-ahead element is not reported: an element independent exit that drops the pulled element precedes every forwarding of its error", Floor: 2, Run: ruleR085},
 			{ID: "R10.1b", Title: "stage producers modify only state created inside the producer (per iteration)", Floor: 23, Run: ruleR101stages},
 		},
 	})
